@@ -299,6 +299,21 @@ class Exec(Engine):
         acc, excs = self.ev_list([e.left] + list(e.comparators), st)
         out = list(excs)
         for s, vals in acc:
+            if len(e.ops) == 1 and isinstance(e.ops[0], (ast.Eq, ast.NotEq)):
+                a, b = vals
+                if b.kind == 'ref' and isinstance(s.node(b), Arr) and s.node(b).flavour == 'set':
+                    a, b = b, a
+                if a.kind == 'ref' and isinstance(s.node(a), Arr) and s.node(a).flavour == 'set' and b.kind == 'tuple' \
+                        and isinstance(e.comparators[0] if a is vals[0] else e.left, ast.Set):
+                    # {values of a sequence} == {c1, ..}: every value is one of the ci and every ci occurs
+                    n = s.node(a)
+                    q = fresh('q', I)
+                    consts = [self.unwrap(x, n.elem) for x in b.items]
+                    t = z3.And(z3.ForAll([q], z3.Implies(z3.And(0 <= q, q < n.n), z3.Or([n.a[q] == c for c in consts])),
+                                         patterns=[n.a[q]]),
+                               *[z3.Exists([q], z3.And(0 <= q, q < n.n, n.a[q] == c), patterns=[n.a[q]]) for c in consts])
+                    out.append(Result(s, VBool(z3.Not(t) if isinstance(e.ops[0], ast.NotEq) else t)))
+                    continue
             if len(e.ops) == 1 and hasattr(self.world, 'compare_objects'):
                 r = self.world.compare_objects(self, s, e.ops[0], vals[0], vals[1])
                 if r is not None:
@@ -416,6 +431,12 @@ class Exec(Engine):
                 t = to_int(idx)
                 self.oblige(st, 'index-bounds', z3.And(t >= 0, t < n.n), line)
                 return [Result(st, self.wrap(n.elem, n.a[t]))]
+            if isinstance(n, Dict) and n.seq is not None:
+                t = to_int(idx)
+                self.oblige(st, 'index-bounds', z3.And(t >= 0, t < n.seq), line)
+                if n.nones is not None:
+                    return [Result(st, VOpt(n.nones[t], VInner(base, t)))]
+                return [Result(st, VInner(base, t))]
             if isinstance(n, Dict):
                 kt = self.unwrap(idx, n.kkind)
                 mode = self.keyerror_mode(node)
@@ -531,6 +552,16 @@ class Exec(Engine):
         return self.world.comprehension(self, st, e)
 
     ev_GeneratorExp = ev_ListComp
+
+    def ev_SetComp(self, e, st):
+        # a set comprehension: the list of its values, marked as a set (membership and equality with a set display only)
+        out = []
+        for r in self.world.comprehension(self, st, e):
+            if r.exc is None and r.val.kind == 'ref' and isinstance(r.st.node(r.val), Arr):
+                n = r.st.node(r.val)
+                r.st.setnode(r.val, Arr(n.elem, n.a, n.n, 'set'))
+            out.append(r)
+        return out
 
     def ev_Call(self, e, st):
         out = []
@@ -813,6 +844,10 @@ class Exec(Engine):
         e = ast.parse(p, mode='eval').body
         if contents:
             ref = self.sev(e, st)
+            if ref.kind == 'opt':
+                ref = ref.val
+            if ref.kind == 'none':
+                return
             if ref.kind != 'ref':
                 raise EngineError('modifies: %s is not a reference' % path)
             self.havoc_node(st, ref)
@@ -836,6 +871,8 @@ class Exec(Engine):
                 st.setnode(ref, n.replace(a=fresh('hv', n.a.sort())))
         elif isinstance(n, Dict):
             kw = dict(dom=fresh('hvdom', n.dom.sort()), val=fresh('hvval', n.val.sort()), keys=None, nkeys=None, pos=None)
+            if n.seq is not None:
+                kw['dom'] = n.dom          # a sequence keeps its positions; only the entries change
             if n.inner:
                 kw['idom'] = fresh('hvidom', n.idom.sort())
             st.setnode(ref, n.replace(**kw))
@@ -1228,6 +1265,20 @@ class Exec(Engine):
                 acc, excs = self.ev_list([t.value, t.slice], s0)
                 out.extend(Result(r.st, exc=r.exc, flow='raise') for r in excs)
                 for s1, (base, idx) in acc:
+                    if base.kind == 'inner':
+                        # del of a key of a dict held by value inside its container
+                        n = s1.node(base.ref)
+                        k2 = self.unwrap(idx, n.inner[0])
+                        yes, no = self.fork(s1, n.idom[base.key][k2])
+                        for s2 in yes:
+                            s2 = s2.copy()
+                            n2 = s2.node(base.ref)
+                            drow = z3.Store(n2.idom[base.key], k2, z3.BoolVal(False))
+                            s2.setnode(base.ref, n2.replace(idom=z3.Store(n2.idom, base.key, drow)))
+                            nxt.append(s2)
+                        for s2 in no:
+                            out.append(self.exc(s2, 'KeyError', idx))
+                        continue
                     n = s1.node(base) if base.kind == 'ref' else None
                     if not isinstance(n, Dict):
                         raise EngineError('del on a non-dict')
@@ -1346,6 +1397,8 @@ class Exec(Engine):
                 # iterate over the entry snapshot of the sequence
                 a0, elem = n.a, n.elem
                 return z3.IntVal(0), n.n, (lambda st, k: self.wrap(elem, a0[k]))
+            if isinstance(n, Dict) and n.seq is not None:
+                return z3.IntVal(0), n.seq, (lambda st, k: VInner(itv, k))
             if isinstance(n, Dict):
                 st2, keys, nkeys = self.world.dict_order(self, st, itv)
                 kk = n.kkind
@@ -1379,8 +1432,14 @@ class Exec(Engine):
         for nm in sorted(names):
             if nm in hv.env:
                 hv.env[nm] = self.fresh_like(hv, hv.env[nm], nm)
-        for ref in self.written_nodes(s.body, entry):
-            self.havoc_node(hv, ref)
+        for item in items:
+            try:
+                probes = [r0.st for r0 in self.assign(s.target, item, entry.copy())] or [entry]
+            except EngineError:
+                probes = [entry]
+            for pr in probes:
+                for ref in self.written_nodes(s.body, pr):
+                    self.havoc_node(hv, ref)
         for path in lc.get('modifies', []):
             self.havoc_path(hv, path)
         out, after_break = [], []
@@ -1494,8 +1553,17 @@ class Exec(Engine):
         for nm in sorted(names):
             if nm in hv.env:
                 hv.env[nm] = self.fresh_like(hv, hv.env[nm], nm)
-        for ref in self.written_nodes(s.body, entry):
-            self.havoc_node(hv, ref)
+        probes = [entry]
+        if is_for and elem is not None:
+            # the loop target may alias into a container (an element that is a dict held by value inside its tuple):
+            # writes through it are writes to that container
+            try:
+                probes = [r0.st for r0 in self.assign(s.target, elem(entry, fresh('probe', I)), entry.copy())] or [entry]
+            except EngineError:
+                probes = [entry]
+        for pr in probes:
+            for ref in self.written_nodes(s.body, pr):
+                self.havoc_node(hv, ref)
         for path in lc.get('modifies', []):
             self.havoc_path(hv, path)
         if is_for:
@@ -1506,6 +1574,8 @@ class Exec(Engine):
                 it.assume(t, tag='%s/inv%d' % (tag, j))
             body_states = []
             for r0 in self.assign(s.target, elem(it, k), it):
+                r0.st.env = dict(r0.st.env)
+                r0.st.env[ivar] = VInt(k)        # ghost: the position of this iteration (for invariants of inner loops)
                 body_states.append(r0.st)
         else:
             it = hv.copy()
@@ -1819,6 +1889,8 @@ class Exec(Engine):
             e = ast.parse(p, mode='eval').body
             if contents:
                 v = self.sev(e, entry)
+                if v.kind == 'opt':
+                    v = v.val              # the contents of an optional container (when it is there)
                 if v.kind == 'ref':
                     allow(allowed_nodes, v.nid, cond)
                 elif v.kind == 'inner':
